@@ -8,7 +8,7 @@ VERIF = os.path.dirname(os.path.dirname(os.path.abspath(__file__)))
 SEEDS = [1, 2, 3, 4]
 dirs = sorted(d for d in os.listdir(os.path.join(VERIF, "seeded")) if os.path.isdir(os.path.join(VERIF, "seeded", d)))
 only = sys.argv[1:] or dirs
-serial = [d for d in only if d[:3] in ("C19", "C20")]       # their checks rewrite lean/PsVerif/Generated/*.lean
+serial = []       # every worker has its own copy of the lean directory
 par = [d for d in only if d not in serial]
 
 def run(sd):
@@ -16,16 +16,19 @@ def run(sd):
     w = tempfile.mkdtemp(prefix=f"ps_rb_{sd}_"); os.rmdir(w)
     subprocess.run(["git", "-C", "/repo", "worktree", "add", "-q", "--detach", w, "HEAD"], check=True)
     ev = tempfile.mkdtemp(prefix="ps_rb_ev_")
+    lean = tempfile.mkdtemp(prefix="ps_rb_lean_"); os.rmdir(lean)
+    shutil.copytree(os.path.join(VERIF, "lean"), lean, symlinks=True)      # generated Lean files are rewritten per mutant: private copy
     hits = []
     try:
         subprocess.run(["git", "-C", w, "apply", os.path.join(VERIF, "seeded", sd, "patch.diff")], check=True)
         for s in SEEDS:
             r = subprocess.run([os.path.join(VERIF, "check"), p], cwd=VERIF, capture_output=True, text=True,
-                               env=dict(os.environ, PYSENSORS_REPO=w, VERIF_EVIDENCE_DIR=ev, VERIF_SEED=str(s)))
+                               env=dict(os.environ, PYSENSORS_REPO=w, VERIF_EVIDENCE_DIR=ev, VERIF_SEED=str(s), VERIF_LEAN_DIR=lean))
             hits.append(r.returncode)
     finally:
         subprocess.run(["git", "-C", "/repo", "worktree", "remove", "--force", w])
         shutil.rmtree(ev, ignore_errors=True)
+        shutil.rmtree(lean, ignore_errors=True)
     return sd, hits
 
 out = {}
